@@ -4,14 +4,18 @@ import MoSql.Ref
 import MoSql.Lemmas.BracketProps
 import MoSql.Props.C06
 import MoSql.Lemmas.LevelsOK
+import MoSql.Lemmas.PegBounds
+import MoSql.Lemmas.PegExample
 /-!
 C14 — malformed input is rejected with ParseException, never answered or crashed on.
 
 What is proved: (1) the edits the oracle calls "certainly ill-formed" really leave every
 bracket-balanced language, for token lists of any length and nesting; (2) which inputs make the
 modelled parse actions raise (the only way a non-ParseException can arise); (3) the one place where
-the library answers instead of rejecting (`make_tree` returning its first token).  That the PEG
-recogniser rejects the rest is decided on the real parser by the oracle (partial).
+the library answers instead of rejecting (`make_tree` returning its first token); (4) for the model of the
+recogniser engine (`MoSql.Peg`, tied to mo_parsing by the correspondence run in the C09 check): every match ends inside
+the text, for every grammar over the three whitespace engines.  That the SQL grammar itself rejects the rest is
+decided on the real parser by the oracle (partial).
 -/
 namespace MoSql.Props.C14
 open MoSql MoSql.Brackets MoSql.Lex MoSql.Infix
@@ -87,5 +91,16 @@ above knows (modelled, or only exercised); a new or renamed action breaks this `
 theorem actions_classified :
     Gen.parseActions.all (fun a => Ref.actionsModelled.contains a || Ref.actionsExercised.contains a) = true := by
   decide
+
+/-- **the recogniser engine reports positions inside the input**: whatever grammar runs on the three whitespace
+engines of the SQL grammar, with whatever fuel, the text left over by a match is never longer than the text given
+(the end position lies in `0 … len`) -/
+theorem engine_match_ends_inside_the_text (rules : Nat → Peg.G) (fuel : Nat) (g : Peg.G) (x : Peg.Str) (ts : List Peg.Tok) (r : Peg.Str)
+    (h : Peg.run { skip := Peg.engines, rule := rules } fuel g x = .ok ts r) : r.length ≤ x.length :=
+  Peg.run_le (E := { skip := Peg.engines, rule := rules }) Peg.engines_le fuel g x ts r h
+
+/-- a non-trivial match to which the statement applies -/
+example : Peg.run { skip := Peg.engines, rule := fun _ => .empty } 20 Peg.Example.g "select a , b ;".toList
+    = .ok [.leaf "select".toList, .leaf "a".toList, .leaf ",".toList, .leaf "b".toList] " ;".toList := by rfl
 
 end MoSql.Props.C14
